@@ -346,7 +346,7 @@ def parse_getheaders_payload(payload: bytes) -> dict:
         block_header_hashes = payload[index : index + hash_count * 32]
         parsed_payload["block_header_hashes"] = [
             block_header_hashes[32 * i : 32 * (i + 1)].hex()
-            for i in range(1, 1 + len(block_header_hashes) // 32)
+            for i in range(len(block_header_hashes) // 32)
         ]
         parsed_payload["stop_hash"] = payload[
             index + hash_count * 32 : index + hash_count * 32 + 32
